@@ -3,9 +3,9 @@
 ID=$1; NAME=$2
 cd "$(dirname "$0")/.." || exit 2
 mkdir -p seeded/$NAME
-git -C /tmp/seed/$ID diff -- PyXAB > seeded/$NAME/patch.diff
-cp /tmp/seed/$ID/demo.py seeded/$NAME/demo.py
-cp /tmp/seed/$ID/NOTES.md seeded/$NAME/NOTES.md 2>/dev/null
+git -C ${SEEDROOT:-/tmp/seed}/$ID diff -- PyXAB > seeded/$NAME/patch.diff
+cp ${SEEDROOT:-/tmp/seed}/$ID/demo.py seeded/$NAME/demo.py
+cp ${SEEDROOT:-/tmp/seed}/$ID/NOTES.md seeded/$NAME/NOTES.md 2>/dev/null
 [ -f seeded/$NAME/meta.json ] || cat > seeded/$NAME/meta.json <<EOM
 {
  "property": "$ID",
